@@ -18,7 +18,7 @@ def run(ctx):
     thorough = ctx.tier == "thorough"
     flavors = ["plain", "tsan"] + (["asan"] if thorough else [])
     bins = vf.build_many([("c09_pool", f) for f in flavors])
-    n = 20000 if thorough else 320
+    n = 20000 if thorough else 960
     jobs = []
     for fl in flavors:
         b = bins[("c09_pool", fl)]
